@@ -735,8 +735,8 @@ def dispatch_family(chk: Check, quick: bool, small: bool = False) -> None:
                                  reqms=["get", "post", "put", "delete", "head", "options", "trace"], kws=["pk"])))
     for name, kw in confs:
         rows = model_check(chk, "dispatch", name, **kw)
-        if small:
-            rows = rows[:: max(1, len(rows) // 2500)]
+        if small and len(rows) > 2500:          # a seeded sample (a stride would alias with the enumeration order)
+            rows = random.Random(len(rows)).sample(rows, 2500)
         handled = 0
         from .pool import pmap
         results = pmap(replay_dispatch, rows, workers=WORKERS, per_item_s=10.0, chunk=500)
@@ -757,7 +757,7 @@ def dispatch_family(chk: Check, quick: bool, small: bool = False) -> None:
 def rtr_family(chk: Check, small: bool = False) -> None:
     rows = model_check(chk, "rtr", "R")
     if small:
-        rows = rows[::3]
+        rows = random.Random(len(rows)).sample(rows, 512)
     for row in rows:
         chk.count(["rtr", row["i"]], nontrivial=any(row["i"][k] != "none" for k in ("a", "k", "s", "cx")))
         bad = replay_rtr(row)
@@ -768,9 +768,9 @@ def rtr_family(chk: Check, small: bool = False) -> None:
 
 
 def mw_family(chk: Check, quick: bool, small: bool = False) -> None:
-    kw: Dict[str, Any] = dict(maxdepth=3)
+    kw: Dict[str, Any] = dict(maxdepth=4)
     if small:
-        kw = dict(maxdepth=2, sts=(200,), markseqs="MarkSeqsSmall",
+        kw = dict(maxdepth=2, sts=(200, 404), markseqs="MarkSeqsSmall",
                   cts=("text/html; charset=utf-8", "text/html", "text/plain; charset=utf-8", "application/json",
                        "text/css", "TEXT/HTML; charset=utf-8", "none"))
     elif quick:
